@@ -16,9 +16,17 @@ def main() -> None:
         text = core.from_cps(c["text"])
         try:
             segs = common.wrap_text_into_lines(text, line_width=c["width"])
-            obs.append({"text": c["text"], "width": c["width"], "outcome": "ok", "segs": [core.cps(s) for s in segs], "exc": ""})
+            first = [core.cps(s) for s in segs]
+            # a caller may do what it likes with the returned list: a second call must not be affected (history of calls)
+            try:
+                segs.append("<mutated by the caller>")
+                segs[0] = "<mutated by the caller>"
+            except Exception:
+                pass
+            again = common.wrap_text_into_lines(text, line_width=c["width"])
+            obs.append({"text": c["text"], "width": c["width"], "outcome": "ok", "segs": first, "segs2": [core.cps(s) for s in again], "exc": ""})
         except Exception as ex:  # an observation, not a harness crash
-            obs.append({"text": c["text"], "width": c["width"], "outcome": "exception", "segs": [], "exc": "%s: %s" % (type(ex).__name__, str(ex)[:200])})
+            obs.append({"text": c["text"], "width": c["width"], "outcome": "exception", "segs": [], "segs2": [], "exc": "%s: %s" % (type(ex).__name__, str(ex)[:200])})
     json.dump(obs, open(out_path, "w"))
 
 
